@@ -13,6 +13,9 @@ func genSim(r *rng, par bool, allowStall bool) (SimCfg, []StallF) {
 	} else {
 		s.NumCPU = pick(r, 1, 2, 4)
 	}
+	if r.chance(0.4) {
+		s.GoMaxProcs = pick(r, 1, 1, 2, 4, 16)
+	}
 	switch x := r.intn(100); {
 	case x < 8:
 		s.Policy = "canonical"
@@ -281,7 +284,10 @@ func faultExpr(kind, x, k string) string {
 var c05Faults = []string{"mod0", "shl-neg", "shr-neg", "neq-incomparable", "switch-incomparable", "contains-incomparable", "host-error", "host-panic", "throw",
 	"index", "arity", "not-a-function", "type-error", "map-key", "method-missing", "runaway-slots"}
 var c05Ctx = []string{"top", "closure", "seq-map", "par-map", "seq-accept", "par-accept", "collector-map", "collector-reduce", "merge-operand", "merge-operand2", "merge-less",
-	"mu-source", "mu-consumer", "mu-consumer-par", "nested-closure", "order", "iir"}
+	"mu-source", "mu-consumer", "mu-consumer-par", "nested-closure", "order", "iir",
+	"mu-consumer-lazy-combine", "mu-consumer-lazy-iir", "mu-consumer-lazy-number", "mu-consumer-lazy-map", "mu-consumer-map-of-lists", "mu-source-par",
+	"merge-operand-combine", "par-upstream-combine", "par-upstream-number", "collector-iir", "collector-accept", "collector-cross", "seq-cross", "seq-compact", "seq-fsm",
+	"seq-combine3", "seq-number", "par-map-nested", "groupby", "minmax", "visit", "present", "index-where"}
 
 func genC05(r *rng, tier string) *Case {
 	fault := pick(r, c05Faults...)
@@ -294,6 +300,16 @@ func genC05(r *rng, tier string) *Case {
 	k := r.rangeInt(14, n-2) // after the parallel switch (item 12) where relevant
 	if r.chance(0.3) {
 		k = r.rangeInt(0, 12)
+	}
+	switch ctx {
+	case "mu-consumer-lazy-combine", "mu-consumer-lazy-iir", "mu-consumer-map-of-lists", "merge-operand-combine", "par-upstream-combine", "collector-iir", "seq-compact":
+		if k == 0 {
+			k = 1
+		}
+	case "seq-combine3":
+		if k < 2 {
+			k = 2
+		}
 	}
 	if (ctx == "collector-reduce" || ctx == "iir") && k == 0 {
 		k = 1 // the first element does not pass through the two-argument callback
@@ -341,6 +357,59 @@ func genC05(r *rng, tier string) *Case {
 	case "mu-consumer-par":
 		body = "numbers(a).multiUse({s: l->l.map(x->cost(0," + f("x") + ")).sum(), n: l->l.size()}).s"
 		parallel = true
+	case "mu-consumer-lazy-combine":
+		body = "numbers(a).multiUse({s: l->l.combine((p,q)->" + f("q") + "+p), n: l->l.size()}).s.size()"
+	case "mu-consumer-lazy-iir":
+		body = "numbers(a).multiUse({s: l->l.iir(x->x, (x,m)->" + f("x") + "+m%7), n: l->l.size()}).s.size()"
+	case "mu-consumer-lazy-number":
+		body = "numbers(a).multiUse({s: l->l.map(x->x+1).number((n,x)->" + f("x-1") + "), n: l->l.size()}).s.size()"
+	case "mu-consumer-lazy-map":
+		body = "numbers(a).multiUse({s: l->l.map(x->" + f("x") + "), n: l->l.size()}).s.size()"
+	case "mu-consumer-map-of-lists":
+		body = "numbers(a).multiUse({s: l->{inner: l.combine((p,q)->" + f("q") + ")}, n: l->l.size()}).s.inner.size()"
+	case "mu-source-par":
+		body = "numbers(a).map(x->cost(0," + f("x") + ")).multiUse({s: l->l.sum(), n: l->l.size()}).s"
+		parallel = true
+	case "merge-operand-combine":
+		body = "numbers(a).combine((p,q)->" + f("q") + "+p).merge(numbers(b), (p,q)->p<q).size()"
+	case "par-upstream-combine":
+		body = "numbers(a).combine((p,q)->" + f("q") + "+p).map(x->cost(0,x)).sum()"
+		parallel = true
+	case "par-upstream-number":
+		body = "numbers(a).number((n,x)->" + f("x") + ").accept(x->cost(0,x)>=0).size()"
+		parallel = true
+	case "collector-iir":
+		body = "numbers(a).map(x->cost(0,x)).iir(x->x, (x,l)->" + f("x") + "+l%7).last()"
+		parallel = true
+	case "collector-accept":
+		body = "numbers(a).map(x->cost(0,x)).accept(y->(" + f("y") + ">=0)|true).size()"
+		parallel = true
+	case "collector-cross":
+		body = "numbers(a).map(x->cost(0,x)).cross([0,1], (p,q)->" + f("p") + "+q).size()"
+		parallel = true
+	case "seq-cross":
+		body = "numbers(a).cross([0,1], (p,q)->" + f("p") + "+q).size()"
+	case "seq-compact":
+		body = "numbers(a).compact((p,q)->" + f("q") + "=p).size()"
+	case "seq-fsm":
+		body = "numbers(a).fsm((s,x)->goto((s.state+" + f("x") + ")%3)).size()"
+	case "seq-combine3":
+		body = "numbers(a).combine3((p,q,r)->p+q+" + f("r") + ").size()"
+	case "seq-number":
+		body = "numbers(a).number((n,x)->" + f("x") + "+n).size()"
+	case "par-map-nested":
+		body = "numbers(a).map(x->cost(0,[x].map(y->" + f("y") + ").first())).sum()"
+		parallel = true
+	case "groupby":
+		body = "numbers(a).groupByEqual(x->" + f("x") + "%3).size()"
+	case "minmax":
+		body = "numbers(a).minMax(x->" + f("x") + ").max"
+	case "visit":
+		body = "numbers(a).visit(0, (v,x)->v+" + f("x") + ")"
+	case "present":
+		body = "numbers(a).present(x->(" + f("x") + ")*0<0)"
+	case "index-where":
+		body = "numbers(a).indexWhere(x->(" + f("x") + ")*0<0)"
 	case "order":
 		body = "numbers(a).order(x->0-" + f("x") + ").first()"
 	case "iir":
@@ -385,7 +454,7 @@ func genC08(r *rng, tier string) *Case {
 	if huge {
 		p.N = pick(r, 1_000_000_000, 100_000_000_000)
 	} else {
-		p.N = pick(r, 1000, 5000, 100000)
+		p.N = pick(r, 1000, 5000, 100000, 10, 30, 64, 100, 101, 300)
 	}
 	x := Expect{Huge: huge}
 	if r.chance(0.08) {
@@ -459,6 +528,16 @@ func genC08(r *rng, tier string) *Case {
 	k := pick(r, 0, 1, 2, 5, 11, 12, 13, 20, 50, 100, 200, 500)
 	if tier == "quick" && k > 200 {
 		k = 200
+	}
+	if p.N <= 300 {
+		// small sources: keep the decisive element well inside, so that "behind it" exists
+		k = r.intn(p.N/3 + 1)
+		if par {
+			costs[0] = CostProf{Base: costs[0].Base}
+			if ck == "heavy-tail" || ck == "cheap-then-exp" {
+				ck = "uniform"
+			}
+		}
 	}
 	need := k + offset
 	term := pick(r, "first", "present", "indexWhere", "contains", "single", "topsize", "lazyk", "multiUse")
